@@ -504,15 +504,19 @@ func (sp *yamlSpecScanner) UnmarshalSpec(u func([]byte) error) (err error) {
 
 // removes indent base on the first line
 func removeIndent(spec []string) []string {
+	if len(spec) == 0 {
+		return spec
+	}
 	loc := rxIndent.FindStringIndex(spec[0])
-	if loc[1] == 0 {
+	if len(loc) < 2 || loc[1] == 0 {
+		// the first line is empty or blank: there is no indent to take as reference
 		return spec
 	}
 	for i := range spec {
 		if len(spec[i]) >= loc[1] {
 			spec[i] = spec[i][loc[1]-1:]
 			start := rxNotIndent.FindStringIndex(spec[i])
-			if start[1] == 0 {
+			if len(start) < 2 || start[1] == 0 {
 				continue
 			}
 
@@ -524,8 +528,11 @@ func removeIndent(spec []string) []string {
 
 // removes indent base on the first line
 func removeYamlIndent(spec []string) []string {
+	if len(spec) == 0 {
+		return nil
+	}
 	loc := rxIndent.FindStringIndex(spec[0])
-	if loc[1] == 0 {
+	if len(loc) < 2 || loc[1] == 0 {
 		return nil
 	}
 	var s []string
